@@ -85,9 +85,12 @@ STATES_RE = re.compile(r"(\d+) states generated, (\d+) distinct states found")
 
 
 def run_tlc(module, cfg, wd, workers=8, timeout=600, env_extra=None, xmx="8g", xss=None,
-            simulate=None, depth=None, dfs=False, extra_args=(), coverage=False, seed=None):
-    """Runs TLC on SPEC/<module>.tla with SPEC/<cfg>. Returns dict(out, states, distinct, ok, violated, rc)."""
+            simulate=None, depth=None, dfs=False, extra_args=(), coverage=False, seed=None, stop_after=None):
+    """Runs TLC on SPEC/<module>.tla with SPEC/<cfg>. Returns dict(out, states, distinct, ok, violated, rc).
+    stop_after: seconds after which TLC ends the search by itself (exit 0; `left` > 0 = truncated)."""
     jopts = [f"-Xmx{xmx}", "-XX:+UseParallelGC"]
+    if stop_after:
+        jopts.append(f"-Dtlc2.TLC.stopAfter={int(stop_after)}")
     if xss:
         jopts.append(f"-Xss{xss}")
     if dfs:
@@ -128,15 +131,18 @@ def run_tlc(module, cfg, wd, workers=8, timeout=600, env_extra=None, xmx="8g", x
             states = distinct = int(m.group(1))
     violated = ("is violated" in out) or ("Error: Invariant" in out) or ("Error: Action property" in out) \
         or ("Temporal properties were violated" in out)
+    m = re.search(r"(\d+) states left on queue", out)
+    left = int(m.group(1)) if m else 0
     finished = "Model checking completed. No error has been found." in out or \
-               (simulate is not None and not violated and rc == 0)
+               (simulate is not None and not violated and rc == 0) or \
+               (stop_after and rc == 0 and m is not None and "Finished in" in out)
     if not violated and not finished and not (simulate and timed_out):
         with open(os.path.join(wd, f"tlc-{module}-{cfg}.log"), "w") as f:
             f.write(out)
         raise ToolError(f"TLC did not finish cleanly on {module}/{cfg} (rc={rc}, timeout={timed_out}); "
                         f"log in {wd}")
     return dict(out=out, states=states, distinct=distinct, violated=violated, rc=rc, wall=wall,
-                timed_out=timed_out)
+                timed_out=timed_out, left=left, complete=(left == 0 and not timed_out))
 
 
 def tlc_prints(out, tag):
